@@ -293,7 +293,7 @@ def enumerate_(collection, start=0):
         [[2, 'a'], [3, 'b'], [4, 'c']]
     """
     for i, t in enumerate(collection, start):
-        yield [i, t]
+        yield i, t
 
 
 @specs.parameter('collection', yaqltypes.Iterable())
@@ -864,6 +864,7 @@ class GroupAggregator:
         self._failure_info = None
 
     def __call__(self, group_item):
+        group_item = (group_item[0], tuple(group_item[1]))
         if self.aggregator is None:
             return group_item
 
